@@ -2,6 +2,7 @@
   CmdStab.lean — driver commands for the stabilizer-tableau model (C03, C05, C11; used by C02, C08).
 -/
 import GraphiqModel.Model.StabTableau
+import GraphiqModel.Model.Convert
 import Driver.Proto
 import Driver.CmdTab
 namespace Graphiq.CmdStab
@@ -87,6 +88,19 @@ def insert (a : Args) : String :=
   let p := getNat a "p"
   if p ≤ t.n then s!"ok {showStab (t.insertQubit p).norm}" else "err assertion"
 
+/-- stab.conv n= x= z= r= gates=<circuit list> a=<n×n adjacency>: the verified validator for `state_to_graph` outputs;
+    also reports whether two tableaux generate the same signed group (`stab.same an= … bn= …`) -/
+def conv (a : Args) : String :=
+  let t := stabOf a
+  match circOf (get a "gates") with
+  | none => "err value"
+  | some c =>
+    let rows := rowsOf t.n (get a "a")
+    s!"ok conv={b01 (checkConversion t c (lookup2 rows))}"
+
+def same (a : Args) : String :=
+  s!"ok same={b01 ((stabOf a "a").sameGroup (stabOf a "b"))}"
+
 def dispatch (cmd : String) (a : Args) : Option String :=
   match cmd with
   | "stab.rref" => some (rref a)
@@ -98,6 +112,8 @@ def dispatch (cmd : String) (a : Args) : Option String :=
   | "stab.run" => some (run a)
   | "stab.runtab" => some (runTab a)
   | "stab.insert" => some (insert a)
+  | "stab.conv" => some (conv a)
+  | "stab.same" => some (same a)
   | _ => none
 
 end Graphiq.CmdStab
